@@ -2,6 +2,7 @@
 use oracle::report::Report;
 
 mod cursor;
+mod liar;
 mod reps;
 mod sink;
 mod table;
@@ -55,6 +56,13 @@ fn main() {
             let p = if engine == "c11" { "C11" } else { "C12" };
             let mut r = Report::new("sink", p, &config);
             sink::run(&tier, odd, shard, nshards, p, &mut r);
+            r
+        }
+        "c17" => {
+            let shard: usize = arg("--shard", "0").parse().unwrap();
+            let nshards: usize = arg("--nshards", "1").parse().unwrap();
+            let mut r = Report::new("liar", "C17", &config);
+            liar::run(&tier, odd, shard, nshards, &mut r);
             r
         }
         "c10" => {
